@@ -314,7 +314,7 @@ theorem simNext_inR (hc : SafeOK G nTerms nRules T cert) {st st' : Int} (h : InR
         dsimp only at hs
         cases hgo : find T.gotos st rule with
         | oob => rw [hgo] at hs; cases hs
-        | miss => rw [hgo] at hs; cases hs; exact inR_zero hc
+        | miss => rw [hgo] at hs; cases hs
         | hit v => rw [hgo] at hs; cases hs; exact goto_entry hc h hgo
     · simp only [hneg, if_false] at hs; cases hs
 
@@ -344,10 +344,7 @@ theorem simulate_rank_inR (hc : SafeOK G nTerms nRules T cert) {rank : Int → N
           dsimp only
           cases hgo : find T.gotos st rule with
           | oob => intro hc'; cases hc'
-          | miss =>
-            have : simNext T st = some 0 := by simp [simNext, hf, hneg, hg, hgo]
-            obtain ⟨h1, h2⟩ := hdec _ this
-            exact simulate_rank_inR hc hOK la n 0 h2 (by omega)
+          | miss => intro hc'; cases hc'
           | hit st' =>
             have : simNext T st = some st' := by simp [simNext, hf, hneg, hg, hgo]
             obtain ⟨h1, h2⟩ := hdec _ this
